@@ -550,6 +550,8 @@ func genC07Doc(t *rapid.T, format string) (doc []byte, page int) {
 			doc = renderSSA(d, genSSARendering(t, cols))
 		case "ttml":
 			d := genTTMLDoc(t, true) // clock times on the ms grid
+			// metadata other formats inherit: a frame rate STL cannot express must not leak into the destination
+			d.FrameRate = rapid.SampledFrom([]int64{0, 0, 24, 25, 30, 50, 60}).Draw(t, "framerate")
 			for i := range d.Cues {
 				d.Cues[i].Begin.H, d.Cues[i].End.H = d.Cues[i].Begin.H%23, d.Cues[i].End.H%23
 				b, e := ratFloorNs(d.Cues[i].Begin.exactNs(0, 0)), ratFloorNs(d.Cues[i].End.exactNs(0, 0))
